@@ -13,7 +13,7 @@ import sys
 sys.path.insert(0, os.path.dirname(os.path.abspath(__file__)))
 from _util import exc_class, rng, TIER  # noqa: E402
 
-from Crypto.Cipher import AES, ARC2, DES, DES3, ChaCha20  # noqa: E402
+from Crypto.Cipher import AES, ARC2, CAST, DES, DES3, Blowfish, ChaCha20  # noqa: E402
 from Crypto.Hash import (MD2, MD4, MD5, RIPEMD160, SHA1, SHA224, SHA256, SHA384, SHA512, SHA3_224, SHA3_256, SHA3_384,  # noqa: E402
                          SHA3_512, keccak, BLAKE2b, BLAKE2s, HMAC, CMAC, Poly1305, KMAC128, KMAC256, SHAKE128, SHAKE256,
                          cSHAKE128, cSHAKE256, TurboSHAKE128, TurboSHAKE256, KangarooTwelve, TupleHash128, TupleHash256)
@@ -321,7 +321,8 @@ def fam_cmac():
             except ValueError:      # degenerates to single DES
                 continue
     ciphers = [("aes", AES, 16, lambda: rb(r, r.choice([16, 24, 32])), 8), ("des3", DES3, 8, lambda: des3_key(r.choice([16, 24])), 60),
-               ("des", DES, 8, lambda: rb(r, 8), 20), ("arc2", ARC2, 8, lambda: rb(r, r.choice([5, 8, 16, 16, 32, 128])), 12)]
+               ("des", DES, 8, lambda: rb(r, 8), 20), ("arc2", ARC2, 8, lambda: rb(r, r.choice([5, 8, 16, 16, 32, 128])), 12),
+               ("blowfish", Blowfish, 8, lambda: rb(r, r.choice([4, 8, 16, 32, 56])), 400), ("cast", CAST, 8, lambda: rb(r, r.choice([5, 10, 16])), 30)]
     for cname, mod, bs, keygen, ms in ciphers:
         mlens = [0, 1, bs - 1, bs, bs + 1, 2 * bs - 1, 2 * bs, 2 * bs + 1, 3 * bs - 1, 3 * bs, 3 * bs + 1, 4 * bs, 100]
         tlens = [4, 5, bs - 1, bs, bs] if bs == 8 else [4, 5, 8, 12, 15, 16, 16]
@@ -329,6 +330,8 @@ def fam_cmac():
             combos = [(m, r.choice(tlens)) for m in mlens for _ in range(2 if cname == "aes" else 1)] + [(r.choice(mlens), t) for t in tlens]
         else:
             combos = [(m, t) for m in list(range(0, 3 * bs + 2)) + [4 * bs, 100, 1000] for t in sorted(set(tlens))]
+        if QUICK and cname == "blowfish":            # the key schedule costs the judge 521 block encryptions per record
+            combos = pick(r, combos[:13], 4) + pick(r, combos[13:], 2)
         for m, t in combos:
             key, msg, msg2 = keygen(), rb(r, m), rb(r, m + 1)
             par = 0
